@@ -394,6 +394,79 @@ fn odd_targets() -> Stats {
     st
 }
 
+/// Whole inputs that look like a single literal or a signed literal, and programs whose user functions
+/// re-enter the library (a function defined by an expression evaluates it through the string-level shared
+/// entry point, through the mutable one, or through a precompiled tree): every string-level and tree-level,
+/// typed and untyped shared form must equal its mutable twin on a clone.
+fn whole_inputs_and_reentrant_functions() -> Stats {
+    use evalexpr::{ContextWithMutableFunctions, ContextWithMutableVariables, Function, HashMapContext, Value};
+    let mut st = Stats::new();
+    let mut c: HCtx = HashMapContext::new();
+    c.set_value("x".into(), Value::Int(3)).unwrap();
+    c.set_value("t".into(), Value::Boolean(true)).unwrap();
+    let inner = |arg: &EV| -> HCtx {
+        let mut i: HCtx = HashMapContext::new();
+        let _ = i.set_value("v".into(), arg.clone());
+        i
+    };
+    c.set_function("sq".into(), Function::new(move |a| evalexpr::eval_with_context("v * v", &inner(a)))).unwrap();
+    c.set_function("sqi".into(), Function::new(move |a| evalexpr::eval_int_with_context("v * v", &inner(a)).map(Value::Int))).unwrap();
+    c.set_function("sqm".into(), Function::new(move |a| evalexpr::eval_with_context_mut("w = v * v; w", &mut inner(a)))).unwrap();
+    c.set_function("sqt".into(), Function::new(move |a| build_operator_tree::<DefaultNumericTypes>("v * v")?.eval_with_context(&inner(a)))).unwrap();
+    c.set_function("sqf".into(), Function::new(move |a| evalexpr::eval(&format!("{} * {}", a, a)))).unwrap();
+    let sources = [
+        "+7", "+1.5", " +7 ", "-9223372036854775808", "9223372036854775807", "-7", "- 7", "1e+3", "1e-3", "+x", "-x", "7", "007", ".5", "5.", "1e3", "0x10", "-0x10",
+        "true", " true ", "\"s\"", "x", " x ", "(7)", "+", "-", "", " ", "7 7", "+ 7", "++7", "--7", "1.5.", "1e", "e1", "+.5", "-.5e-3", "+inf", "-inf", "nan",
+        "sq(3) + 1", "sq(sq(2))", "sqi(3)", "sqm(3)", "sqt(3)", "sqf(4)", "sq(x); sq(x)", "(sq(2), sqm(3), sqt(4))", "sq(t)", "sq()", "sq(sqm(sqt(2)))", "x + sq(x) * sqi(2)",
+    ];
+    for src in sources {
+        let mut results: Vec<(String, String)> = Vec::new();
+        macro_rules! both {
+            ($label:literal, $shared:expr, $mutable:expr) => {{
+                let a = guarded(|| $shared).map(|r| format!("{:?}", r)).unwrap_or_else(|p| format!("panic at {}: {}", p.location, p.message));
+                let b = guarded(|| $mutable).map(|r| format!("{:?}", r)).unwrap_or_else(|p| format!("panic at {}: {}", p.location, p.message));
+                st.evaluations += 2;
+                results.push((format!("{} (shared)", $label), a));
+                results.push((format!("{} (mutable on a clone)", $label), b));
+            }};
+        }
+        both!("eval_with_context", evalexpr::eval_with_context(src, &c), evalexpr::eval_with_context_mut(src, &mut c.clone()));
+        both!("eval_int_with_context", evalexpr::eval_int_with_context(src, &c), evalexpr::eval_int_with_context_mut(src, &mut c.clone()));
+        both!("eval_float_with_context", evalexpr::eval_float_with_context(src, &c), evalexpr::eval_float_with_context_mut(src, &mut c.clone()));
+        both!("eval_number_with_context", evalexpr::eval_number_with_context(src, &c), evalexpr::eval_number_with_context_mut(src, &mut c.clone()));
+        both!("eval_boolean_with_context", evalexpr::eval_boolean_with_context(src, &c), evalexpr::eval_boolean_with_context_mut(src, &mut c.clone()));
+        both!("eval_string_with_context", evalexpr::eval_string_with_context(src, &c), evalexpr::eval_string_with_context_mut(src, &mut c.clone()));
+        both!(
+            "build_operator_tree + Node::eval_with_context",
+            build_operator_tree::<DefaultNumericTypes>(src).and_then(|t| t.eval_with_context(&c)),
+            build_operator_tree::<DefaultNumericTypes>(src).and_then(|t| t.eval_with_context_mut(&mut c.clone()))
+        );
+        st.count("whole-input-and-reentrant-sources");
+        // within each pair the two forms agree; the untyped string-level and tree-level forms agree as well
+        let mut bad: Option<String> = None;
+        for pair in results.chunks(2) {
+            if pair[0].1 != pair[1].1 {
+                bad = Some(format!("{} = {} but {} = {}", pair[0].0, pair[0].1, pair[1].0, pair[1].1));
+                break;
+            }
+        }
+        if bad.is_none() && results[0].1 != results[12].1 {
+            bad = Some(format!("{} = {} but {} = {}", results[0].0, results[0].1, results[12].0, results[12].1));
+        }
+        if let Some(b) = bad {
+            st.violation(Violation {
+                property: ID,
+                kind: "whole-input-or-reentrant-function".into(),
+                input: json!({"source": src, "context": "x = 3, t = true, functions sq / sqi / sqm / sqt / sqf defined by expressions"}),
+                expected: "the shared form equals the mutable form on a clone, string level equals tree level".into(),
+                actual: b,
+                test: test_wrap("c11_replay", &format!("    // context: x = 3, t = true; sq = |a| eval_with_context(\"v * v\", &{{v = a}}) etc.\n    // compare eval_with_context({:?}, &c) with eval_with_context_mut({:?}, &mut c.clone())\n", src, src)),
+            });
+        }
+    }
+    st
+}
+
 pub fn run(cfg: &Cfg) -> Report {
     let n = cfg.tier.pick(2, 3);
     let counts = progs::counts(3);
@@ -414,6 +487,7 @@ pub fn run(cfg: &Cfg) -> Report {
         }));
     }
     stats.merge(odd_targets());
+    stats.merge(whole_inputs_and_reentrant_functions());
     // scaling families: long programs with one assignment (or none) at position k
     {
         use super::scale::{int, sizes};
@@ -477,6 +551,13 @@ pub fn run(cfg: &Cfg) -> Report {
 pub fn replay(case: &J) -> i32 {
     let input = &case["input"];
     let src = input["source"].as_str().unwrap_or_else(|| machinery_error("C11 replay: no source"));
+    if case["kind"].as_str() == Some("whole-input-or-reentrant-function") {
+        let all = whole_inputs_and_reentrant_functions();
+        let mut only = Stats::new();
+        only.evaluations = 1;
+        only.violations.extend(all.violations.into_iter().filter(|v| v.input["source"] == case["input"]["source"]));
+        return super::replay_verdict(ID, &only);
+    }
     let ci = input["context"].as_u64().unwrap_or(0) as usize;
     let counts = progs::counts(3);
     let lv = progs::leaves();
